@@ -59,10 +59,8 @@ Proof.
         rewrite Nat.mod_add by lia. reflexivity.
   - destruct i as [|i].
     + cbn [nth length]. replace (0 <? S (length cur))%nat with true by reflexivity. reflexivity.
-    + cbn [nth]. rewrite IH by (cbn [length] in *; lia).
-      f_equal. cbn [length].
-      replace (S i <? S (length cur))%nat with (i <? length cur)%nat by reflexivity.
-      destruct (i <? length cur)%nat; reflexivity.
+    + cbn [nth]. rewrite IH by (cbn [length] in *; first [assumption | lia]).
+      cbn [length]. reflexivity.
 Qed.
 
 Lemma xor_op_nth : forall b key i d,
